@@ -441,7 +441,9 @@ SendIndirectProbe(c, probed) ==
 ChangeSuspectToDown(c, t) ==
     LET st == c.st
         asDown == Mem(t.id, t.inc, "D")
-        s == ApplyExistingIf(st.mem, st.nactive, asDown, LAMBDA m : m.inc = t.inc)
+        \* (fix 6ca130a) the very identity that was suspected, at the very incarnation it was suspected at
+        s == ApplyExistingIf(st.mem, st.nactive, asDown,
+                             LAMBDA m : m.inc = t.inc /\ (m.id = t.id \/ ~Fixed("6ca130a")))
     IN IF ~s.found THEN c
        ELSE LET c1 == HandleApplySummary([c EXCEPT !.st.mem = s.mem, !.st.nactive = s.nactive],
                                          s, asDown, TRUE)
